@@ -86,7 +86,7 @@ func detBytes(b []byte, label string, i int) {
 // Genesis builds the deterministic genesis state: nAccounts funded accounts (the first `online`
 // are online with voting keys), the fee sink and the rewards pool. Accounts nAccounts.. exist only
 // as key pairs (used as fresh receivers / rekey targets).
-func Genesis(online int) (ledgercore.InitState, map[basics.Address]basics.AccountData) {
+func Genesis(online int, poolAtMin bool) (ledgercore.InitState, map[basics.Address]basics.AccountData) {
 	registerProto()
 	as := Accounts()
 	bal := map[basics.Address]basics.AccountData{}
@@ -106,6 +106,11 @@ func Genesis(online int) (ledgercore.InitState, map[basics.Address]basics.Accoun
 	}
 	bal[sinkAddr] = basics.AccountData{MicroAlgos: basics.MicroAlgos{Raw: amount}, Status: basics.NotParticipating}
 	bal[poolAddr] = basics.AccountData{MicroAlgos: basics.MicroAlgos{Raw: amount}, Status: basics.NotParticipating}
+	if poolAtMin {
+		// a rewards pool at its minimum balance: the rewards rate is 0 for the whole history (checks that only
+		// trip because "the sum of money changed" are out of the way of the header-list checks)
+		bal[poolAddr] = basics.AccountData{MicroAlgos: basics.MicroAlgos{Raw: 100_000}, Status: basics.NotParticipating}
+	}
 	gb := bookkeeping.MakeGenesisBalances(bal, sinkAddr, poolAddr)
 	var gh crypto.Digest
 	copy(gh[:], "verif-ledgersim-genesis-hash-000")
